@@ -117,7 +117,9 @@ func gen(rng *rand.Rand, tier core.Tier, emit core.Emit) {
 		fmt.Sprintf("remove|00000001|%s", addrA),
 	} {
 		for goal := 0; goal < 2; goal++ {
-			for _, oc := range []string{"ok:10483:" + hexs("new") + ":6", "fail|0|2", "fail|2|2"} {
+			// fail|3|2, fail|0|-1: the budget is already overdrawn (an item left by a run with a larger budget, a negative
+			// budget from the command line): the probe has failed for good, it is not queued again
+			for _, oc := range []string{"ok:10483:" + hexs("new") + ":6", "fail|0|2", "fail|2|2", "fail|3|2", "fail|0|-1"} {
 				outcome, retries, maxr := oc, "0", "2"
 				if parts := strings.Split(oc, "|"); len(parts) == 3 {
 					outcome, retries, maxr = parts[0], parts[1], parts[2]
@@ -126,6 +128,9 @@ func gen(rng *rand.Rand, tier core.Tier, emit core.Emit) {
 				for i, m := range merges {
 					if tier != core.Thorough && (i+goal)%2 == 1 && !strings.HasPrefix(other, "renew") {
 						continue // quick tier: half of the merges (all of them for the keepalive)
+					}
+					if (oc == "fail|3|2" || oc == "fail|0|-1") && i%9 != 0 {
+						continue // a few merges are enough for the overdrawn budgets
 					}
 					emit("uc", strings.Join(base, ","), probe+","+other, strings.Join(m, ","))
 				}
@@ -156,6 +161,12 @@ func gen(rng *rand.Rand, tier core.Tier, emit core.Emit) {
 		goal := rng.Intn(2)
 		maxr := rng.Intn(6)
 		retries := rng.Intn(maxr + 1)
+		switch rng.Intn(12) {
+		case 0:
+			retries = maxr + 1 + rng.Intn(3)
+		case 1:
+			maxr, retries = -1-rng.Intn(2), rng.Intn(2)
+		}
 		outcome := "fail"
 		if rng.Intn(2) == 0 {
 			outcome = fmt.Sprintf("ok:%d:%s:%d", 10481+rng.Intn(3), hexs("new"+strconv.Itoa(rng.Intn(9))), rng.Intn(16))
